@@ -105,6 +105,7 @@ fn c04_bank_strategy() -> impl Strategy<Value = BankSpec> {
                 asset_tag: 0,
                 op_state: 1,
                 permissionless_bad_debt: false,
+                staked: None,
             }
         })
 }
